@@ -115,6 +115,9 @@ struct Trial {
     /// the registering thread is held right after its sigaction(); another thread starts the first registration of another
     /// signal (which has a handler of its own); then one delivery of this signal arrives on the registering thread
     paused_other: bool,
+    /// the other signal has the very same foreign handler function and flags as this one (a fallback that is compared by
+    /// handler only would still name the other signal during this one's window)
+    same_prev_other: bool,
     /// non-zero: instead of raising at the site itself, single-step from that arrival and raise at the k-th instruction
     /// after it (`istep`); raise_site 0 = step from the call of register itself
     step_k: u64,
@@ -151,7 +154,11 @@ fn child(t: &Trial, fd: i32) -> i32 {
                 crate::sig::install_raw(sig, h_siginfo as usize, libc::SA_RESTART | libc::SA_SIGINFO);
             }
         }
-        crate::sig::install_raw(other, h_other as usize, libc::SA_RESTART | libc::SA_SIGINFO);
+        if t.same_prev_other && t.prev == Prev::Siginfo {
+            crate::sig::install_raw(other, h_siginfo as usize, libc::SA_RESTART | libc::SA_SIGINFO);
+        } else {
+            crate::sig::install_raw(other, h_other as usize, libc::SA_RESTART | libc::SA_SIGINFO);
+        }
     }
     if t.other_first {
         // before any rule is armed and before anything is sent
@@ -561,7 +568,7 @@ pub fn main(args: &[String]) -> i32 {
                     trials.push(t);
                 }
             };
-            let base = Trial { prev: *prev, sig: *sig, raise_site: 0, occ: 1, bombard: false, delay_after_sigaction: false, concurrent_other: false, other_first: false, swap_prev: false, paused_other: false, step_k: 0 };
+            let base = Trial { prev: *prev, sig: *sig, raise_site: 0, occ: 1, bombard: false, delay_after_sigaction: false, concurrent_other: false, other_first: false, swap_prev: false, paused_other: false, same_prev_other: false, step_k: 0 };
             if real {
                 for s in pre_sites.iter() {
                     push(Trial { raise_site: *s, ..base.clone() }, &mut trials);
@@ -589,6 +596,10 @@ pub fn main(args: &[String]) -> i32 {
             push(Trial { other_first: true, raise_site: site::HL_B_FLIP, occ: 2, ..base.clone() }, &mut trials);
             push(Trial { other_first: true, bombard: true, delay_after_sigaction: true, ..base.clone() }, &mut trials);
             if *prev == Prev::Siginfo {
+                push(Trial { other_first: true, same_prev_other: true, raise_site: site::REG_AFTER_SIGACTION, ..base.clone() }, &mut trials);
+                push(Trial { other_first: true, same_prev_other: true, raise_site: site::REG_BEFORE_PUBLISH, ..base.clone() }, &mut trials);
+            }
+            if *prev == Prev::Siginfo {
                 push(Trial { swap_prev: true, ..base.clone() }, &mut trials);
             }
             if real {
@@ -598,6 +609,12 @@ pub fn main(args: &[String]) -> i32 {
     }
     if crate::arg_str(args, "--mode", "") == "istep" {
         return istep_main(args, seed, &sigs);
+    }
+    if let Some(detail) = late_handler_probe() {
+        emit_violation("C04", "dispatcher-recurses-through-late-handler", &detail);
+        emit_violation("C03", "dispatch-recurses", &detail);
+        emit(&J::obj().set("type", J::s("summary")).set("workload", J::s("w_chain")).set("evaluations", J::u(1)).set("distinct_keys", J::arr([J::s("late-handler")])).set("samples", J::arr([J::s(&detail)])).set("violations", J::u(1)));
+        return 1;
     }
     let mut bad: Vec<(String, String)> = Vec::new();
     let mut keys = std::collections::HashSet::new();
@@ -610,7 +627,7 @@ pub fn main(args: &[String]) -> i32 {
             let tc = t.clone();
             let res = fork::probe(60_000, false, move |fd| child(&tc, fd));
             n += 1;
-            let label = format!("prev={:?} signal={} raise_at={}#{} bombard={} delay={} concurrent_other={} other_first={} swap_prev={} paused_other={}", t.prev, t.sig, if t.raise_site == 0 { "-" } else { director::site_name(t.raise_site) }, t.occ, t.bombard, t.delay_after_sigaction, t.concurrent_other, t.other_first, t.swap_prev, t.paused_other);
+            let label = format!("prev={:?} signal={} raise_at={}#{} bombard={} delay={} concurrent_other={} other_first={} swap_prev={} paused_other={} same_prev_other={}", t.prev, t.sig, if t.raise_site == 0 { "-" } else { director::site_name(t.raise_site) }, t.occ, t.bombard, t.delay_after_sigaction, t.concurrent_other, t.other_first, t.swap_prev, t.paused_other, t.same_prev_other);
             match &res.end {
                 End::Exit(0) if res.out.contains("DONE") || res.out.contains("BAD") => {}
                 End::Timeout => {
@@ -686,6 +703,56 @@ pub fn main(args: &[String]) -> i32 {
         }
     }
     if nviol > 0 { 1 } else { 0 }
+}
+
+static REHOOK_DEPTH: AtomicU64 = AtomicU64::new(0);
+static REHOOK_MAX_DEPTH: AtomicU64 = AtomicU64::new(0);
+static REHOOK_RUNS: AtomicU64 = AtomicU64::new(0);
+static REHOOK_PREV: AtomicUsize = AtomicUsize::new(0);
+
+/// A well-behaved handler installed by the application AFTER the library took the signal over: it chains to whatever was there.
+extern "C" fn h_late(sig: c_int, info: *mut siginfo_t, ctx: *mut c_void) {
+    let d = REHOOK_DEPTH.fetch_add(1, Ordering::SeqCst) + 1;
+    REHOOK_MAX_DEPTH.fetch_max(d, Ordering::SeqCst);
+    REHOOK_RUNS.fetch_add(1, Ordering::SeqCst);
+    let prev = REHOOK_PREV.load(Ordering::SeqCst);
+    if prev > 1 && d < 32 {
+        let f: extern "C" fn(c_int, *mut siginfo_t, *mut c_void) = unsafe { std::mem::transmute(prev) };
+        f(sig, info, ctx);
+    }
+    REHOOK_DEPTH.fetch_sub(1, Ordering::SeqCst);
+}
+
+/// History: the library owns the signal; the application then installs its own handler on top, chaining to the library's;
+/// another action is registered; one delivery. Every action runs once and the application's handler once - the library
+/// must not take the application's handler for a "previous" one and call it back.
+fn late_handler_probe() -> Option<String> {
+    let res = fork::probe(20_000, false, |fd| {
+        use fork::wr;
+        let sig = libc::SIGUSR1;
+        let runs = Arc::new(AtomicU64::new(0));
+        let (r1, r2) = (runs.clone(), runs.clone());
+        let _a = unsafe { signal_hook_registry::register(sig, move || { r1.fetch_add(1, Ordering::SeqCst); }) };
+        unsafe {
+            let mut old: libc::sigaction = std::mem::zeroed();
+            let mut new: libc::sigaction = std::mem::zeroed();
+            new.sa_sigaction = h_late as usize;
+            new.sa_flags = libc::SA_SIGINFO | libc::SA_RESTART;
+            libc::sigemptyset(&mut new.sa_mask);
+            libc::sigaction(sig, &new, &mut old);
+            REHOOK_PREV.store(old.sa_sigaction, Ordering::SeqCst);
+        }
+        let _b = unsafe { signal_hook_registry::register(sig, move || { r2.fetch_add(1, Ordering::SeqCst); }) };
+        unsafe { libc::raise(sig) };
+        wr(fd, &format!("LATE runs={} depth={} actions={}\n", REHOOK_RUNS.load(Ordering::SeqCst), REHOOK_MAX_DEPTH.load(Ordering::SeqCst), runs.load(Ordering::SeqCst)));
+        wr(fd, "DONE\n");
+        0
+    });
+    let line = res.out.lines().find(|l| l.starts_with("LATE ")).unwrap_or("").to_string();
+    match res.end {
+        End::Exit(0) if line == "LATE runs=1 depth=1 actions=2" => None,
+        other => Some(format!("a handler the application installed on top of the library's (and that chains to it) plus a later registration: one delivery gave '{}' (expected runs=1 depth=1 actions=2), process ended {:?}: the dispatcher calls the application's handler back", line, other)),
+    }
 }
 
 fn classify(l: &str) -> &'static str {
@@ -765,7 +832,7 @@ fn istep_main(args: &[String], seed: u64, sigs: &[c_int]) -> i32 {
                         }
                     }
                     let sig = sigs[((idx + pi as u64 + seed) % sigs.len() as u64) as usize];
-                    let t = Trial { prev: *prev, sig, raise_site: w.0, occ: w.1, bombard: false, delay_after_sigaction: false, concurrent_other: false, other_first, swap_prev: false, paused_other: false, step_k: k };
+                    let t = Trial { prev: *prev, sig, raise_site: w.0, occ: w.1, bombard: false, delay_after_sigaction: false, concurrent_other: false, other_first, swap_prev: false, paused_other: false, same_prev_other: false, step_k: k };
                     let tc = t.clone();
                     let res = fork::probe(60_000, false, move |fd| child(&tc, fd));
                     let label = format!("prev={:?} signal={} step-from={}#{} k={} other_first={}", t.prev, t.sig, if w.0 == 0 { "CALL" } else { director::site_name(w.0) }, w.1, k, other_first);
